@@ -26,3 +26,14 @@ func verifBeforeNotifyDelete(dbName string) {
 		(*f)(dbName)
 	}
 }
+
+// VerifBeforeForgetNode, if set, is called when the FUSE server has dropped a
+// node (kernel FORGET) and is about to remove it from the root node's name
+// cache: the window in which a lookup of the same name can re-register it.
+var VerifBeforeForgetNode atomic.Pointer[func(node fs.Node)]
+
+func verifBeforeForgetNode(node fs.Node) {
+	if f := VerifBeforeForgetNode.Load(); f != nil {
+		(*f)(node)
+	}
+}
